@@ -29,12 +29,43 @@ IsPrefixVal(p, f) ==
                    IF i < Len(p.items) THEN p.items[i] = f.items[i]
                    ELSE IsPrefixVal(p.items[i], f.items[i])
          [] p.t = "map" ->
-              (* every entry of p is an entry of f; at most one of them is partial *)
-              /\ \A i \in 1..Len(p.pairs) :
-                   \E j \in 1..Len(f.pairs) :
-                      /\ p.pairs[i][1] = f.pairs[j][1]
-                      /\ IsPrefixVal(p.pairs[i][2], f.pairs[j][2])
-              /\ Cardinality({i \in 1..Len(p.pairs) :
-                     ~\E j \in 1..Len(f.pairs) : p.pairs[i] = f.pairs[j]}) <= 1
+              (* every entry of p is an entry of f, except at most one: the entry in progress, *)
+              (* whose value may be a prefix of f's value for that key, or - when the key      *)
+              (* itself was still being read - a scalar key with a scalar / missing value      *)
+              LET bad == {i \in 1..Len(p.pairs) : ~\E j \in 1..Len(f.pairs) : p.pairs[i] = f.pairs[j]} IN
+              /\ Cardinality(bad) <= 1
+              /\ \A i \in bad :
+                   \/ \E j \in 1..Len(f.pairs) : p.pairs[i][1] = f.pairs[j][1] /\ IsPrefixVal(p.pairs[i][2], f.pairs[j][2])
+                   \/ p.pairs[i][2].t \in {"nil", "s"}
+         [] OTHER -> FALSE
+
+(* GrowsOK(p, c): p is the result at one cut point, c the result at the next (longer) one.  *)
+(* Everything completely decoded in p is still there in c; only the element that was in     *)
+(* progress in p may have changed, and may have vanished if it was a scalar (a text number  *)
+(* cut short can turn into a token the parser cannot read).                                 *)
+(* Thin(p): p holds nothing that was completely decoded - at most the one element in progress *)
+RECURSIVE Thin(_)
+Thin(p) == CASE p.t \in {"nil", "s"} -> TRUE
+             [] p.t = "list" -> Len(p.items) = 0 \/ (Len(p.items) = 1 /\ Thin(p.items[1]))
+             [] p.t = "map" -> Len(p.pairs) = 0 \/ (Len(p.pairs) = 1 /\ Thin(p.pairs[1][2]))
+             [] OTHER -> FALSE
+
+RECURSIVE GrowsOK(_, _)
+GrowsOK(p, c) ==
+  IF p.t \in {"nil", "s"} THEN TRUE
+  ELSE IF p.t # c.t THEN c.t = "nil" /\ Thin(p)
+  ELSE CASE p.t = "list" ->
+              LET n == Len(p.items) IN
+              /\ n <= Len(c.items) + 1
+              /\ \A i \in 1..(n - 1) : i <= Len(c.items) /\ p.items[i] = c.items[i]
+              /\ n >= 1 =>
+                   IF n <= Len(c.items) THEN GrowsOK(p.items[n], c.items[n])
+                   ELSE Thin(p.items[n])
+         [] p.t = "map" ->
+              LET bad == {i \in 1..Len(p.pairs) : ~\E j \in 1..Len(c.pairs) : p.pairs[i] = c.pairs[j]} IN
+              /\ Cardinality(bad) <= 1
+              /\ \A i \in bad :
+                   \/ Thin(p.pairs[i][2])
+                   \/ \E j \in 1..Len(c.pairs) : p.pairs[i][1] = c.pairs[j][1] /\ GrowsOK(p.pairs[i][2], c.pairs[j][2])
          [] OTHER -> FALSE
 =============================================================================
